@@ -79,7 +79,7 @@ Inductive event :=
 | EAcq (l : lref) | ERel (l : lref)
 | EEnter | EExit
 | EWrite (n : nat) | EReply (u n : nat)
-| ESwap | EStart (c : nat).
+| ESwap | EStart (c : nat) (h : lref).   (* [h]: the lock handed to the child *)
 
 Record cfg := { proc : nat -> nat; single : bool; term_tid : nat }.
 
@@ -198,7 +198,7 @@ Definition next (sg : bool) (c : lref) (r : option (nat * nat)) (x : thread)
                             end), [])
   | SSwap ch l => Some (ASwap, with_pc x (SRel ch l LM), [ESwap])
   | SRel ch l h => Some (ARel l, with_pc x (SStart ch h), [ERel l])
-  | SStart ch h => Some (AStart ch h, with_pc x PIdle, [EStart ch])
+  | SStart ch h => Some (AStart ch h, with_pc x PIdle, [EStart ch h])
   end.
 
 (** the effect on the shared state; [None] = the thread has to wait *)
